@@ -451,7 +451,7 @@ Hclose(int32 file_id)
     HEclear();
 
     /* convert file id to file rec and check for validity */
-    file_rec = HAatom_object(file_id);
+    file_rec = HIfile_rec(file_id);
     if (BADFREC(file_rec))
         HGOTO_ERROR(DFE_ARGS, FAIL);
 
@@ -565,7 +565,7 @@ Hinquire(int32 access_id, int32 *pfile_id, uint16 *ptag, uint16 *pref, int32 *pl
 
     /* clear error stack and check validity of access id */
     HEclear();
-    access_rec = HAatom_object(access_id);
+    access_rec = HIaccess_rec(access_id);
     if (access_rec == (accrec_t *)NULL)
         HGOTO_ERROR(DFE_ARGS, FAIL);
 
@@ -614,7 +614,7 @@ Hfidinquire(int32 file_id, char **fname, int *faccess, int *attach)
 
     HEclear();
 
-    file_rec = HAatom_object(file_id);
+    file_rec = HIfile_rec(file_id);
     if (BADFREC(file_rec))
         HGOTO_ERROR(DFE_BADACC, FAIL);
 
@@ -699,7 +699,7 @@ Hnextread(int32 access_id, uint16 tag, uint16 ref, int origin)
 
     /* clear error stack and check validity of the access id */
     HEclear();
-    access_rec = HAatom_object(access_id);
+    access_rec = HIaccess_rec(access_id);
     if (access_rec == (accrec_t *)NULL || !(access_rec->access & DFACC_READ) ||
         (origin != DF_START && origin != DF_CURRENT)) /* DF_END is NOT supported yet !!!! */
         HGOTO_ERROR(DFE_ARGS, FAIL);
@@ -878,7 +878,7 @@ Hstartaccess(int32 file_id, uint16 tag, uint16 ref, uint32 flags)
     /* clear error stack and check validity of file id */
     HEclear();
 
-    file_rec = HAatom_object(file_id);
+    file_rec = HIfile_rec(file_id);
     if (BADFREC(file_rec))
         HGOTO_ERROR(DFE_ARGS, FAIL);
 
@@ -1025,7 +1025,7 @@ Hsetlength(int32 aid, int32 length)
     /* clear error stack and check validity of file id */
     HEclear();
 
-    if ((access_rec = HAatom_object(aid)) == NULL) /* get the access_rec pointer */
+    if ((access_rec = HIaccess_rec(aid)) == NULL) /* get the access_rec pointer */
         HGOTO_ERROR(DFE_ARGS, FAIL);
 
     /* Check whether we are allowed to change the length */
@@ -1074,7 +1074,7 @@ Happendable(int32 aid)
 
     /* clear error stack and check validity of file id */
     HEclear();
-    if ((access_rec = HAatom_object(aid)) == NULL) /* get the access_rec pointer */
+    if ((access_rec = HIaccess_rec(aid)) == NULL) /* get the access_rec pointer */
         HGOTO_ERROR(DFE_ARGS, FAIL);
 
     /* just indicate that the data should be appendable, and only convert */
@@ -1111,7 +1111,7 @@ HPisappendable(int32 aid)
 
     /* clear error stack and check validity of file id */
     HEclear();
-    if ((access_rec = HAatom_object(aid)) == NULL) /* get the access_rec pointer */
+    if ((access_rec = HIaccess_rec(aid)) == NULL) /* get the access_rec pointer */
         HGOTO_ERROR(DFE_ARGS, FAIL);
 
     file_rec = HAatom_object(access_rec->file_id);
@@ -1166,7 +1166,7 @@ Hseek(int32 access_id, int32 offset, int origin)
     /* clear error stack and check validity of this access id */
     HEclear();
 
-    access_rec = HAatom_object(access_id);
+    access_rec = HIaccess_rec(access_id);
     if (access_rec == (accrec_t *)NULL || (origin != DF_START && origin != DF_CURRENT && origin != DF_END))
         HGOTO_ERROR(DFE_ARGS, FAIL);
 
@@ -1249,7 +1249,7 @@ Htell(int32 access_id)
     /* clear error stack and check validity of this access id */
     HEclear();
 
-    access_rec = HAatom_object(access_id);
+    access_rec = HIaccess_rec(access_id);
     if (access_rec == (accrec_t *)NULL)
         HGOTO_ERROR(DFE_ARGS, FAIL);
 
@@ -1288,7 +1288,7 @@ Hread(int32 access_id, int32 length, void *data)
 
     /* clear error stack and check validity of access id */
     HEclear();
-    access_rec = HAatom_object(access_id);
+    access_rec = HIaccess_rec(access_id);
     if (access_rec == (accrec_t *)NULL || data == NULL)
         HGOTO_ERROR(DFE_ARGS, FAIL);
 
@@ -1373,7 +1373,7 @@ Hwrite(int32 access_id, int32 length, const void *data)
 
     /* clear error stack and check validity of access id */
     HEclear();
-    access_rec = HAatom_object(access_id);
+    access_rec = HIaccess_rec(access_id);
     if (access_rec == (accrec_t *)NULL || !(access_rec->access & DFACC_WRITE) || data == NULL)
         HGOTO_ERROR(DFE_ARGS, FAIL);
 
@@ -1833,7 +1833,7 @@ Htrunc(int32 aid, int32 trunc_len)
 
     /* clear error stack and check validity of access id */
     HEclear();
-    access_rec = HAatom_object(aid);
+    access_rec = HIaccess_rec(aid);
     if (access_rec == (accrec_t *)NULL || !(access_rec->access & DFACC_WRITE))
         HGOTO_ERROR(DFE_ARGS, FAIL);
 
@@ -1928,7 +1928,7 @@ Hsync(int32 file_id)
     int        ret_value = SUCCEED;
 
     /* check validity of file record and get dd ptr */
-    file_rec = HAatom_object(file_id);
+    file_rec = HIfile_rec(file_id);
     if (BADFREC(file_rec))
         HGOTO_ERROR(DFE_INTERNAL, FAIL);
 
@@ -1966,7 +1966,7 @@ Hcache(int32 file_id, int cache_on)
     } /* end if */
     else {
         /* check validity of file record and get dd ptr */
-        file_rec = HAatom_object(file_id);
+        file_rec = HIfile_rec(file_id);
         if (BADFREC(file_rec))
             HGOTO_ERROR(DFE_INTERNAL, FAIL);
 
@@ -2001,7 +2001,7 @@ HDvalidfid(int32 file_id)
     int        ret_value = TRUE;
 
     /* convert file id to file rec and check for validity */
-    file_rec = HAatom_object(file_id);
+    file_rec = HIfile_rec(file_id);
     if (BADFREC(file_rec))
         ret_value = FALSE;
 
@@ -2043,7 +2043,7 @@ Hsetaccesstype(int32 access_id, unsigned accesstype)
     /* clear error stack and check validity of this access id */
     HEclear();
 
-    access_rec = HAatom_object(access_id);
+    access_rec = HIaccess_rec(access_id);
     if (access_rec == (accrec_t *)NULL)
         HGOTO_ERROR(DFE_ARGS, FAIL);
     if (accesstype != DFACC_DEFAULT && accesstype != DFACC_SERIAL && accesstype != DFACC_PARALLEL)
@@ -2503,7 +2503,7 @@ Hgetfileversion(int32 file_id, uint32 *majorv, uint32 *minorv, uint32 *release, 
 
     HEclear();
 
-    file_rec = HAatom_object(file_id);
+    file_rec = HIfile_rec(file_id);
     if (BADFREC(file_rec))
         HGOTO_ERROR(DFE_ARGS, FAIL);
 
@@ -2544,7 +2544,7 @@ HIcheckfileversion(int32 file_id)
 
     HEclear();
 
-    file_rec = HAatom_object(file_id);
+    file_rec = HIfile_rec(file_id);
     if (BADFREC(file_rec))
         HGOTO_ERROR(DFE_ARGS, FAIL);
 
@@ -2860,7 +2860,7 @@ HIupdate_version(int32 file_id)
     HEclear();
 
     /* Check args */
-    file_rec = HAatom_object(file_id);
+    file_rec = HIfile_rec(file_id);
     if (BADFREC(file_rec))
         HGOTO_ERROR(DFE_ARGS, FAIL);
 
@@ -2917,7 +2917,7 @@ HIread_version(int32 file_id)
 
     HEclear();
 
-    file_rec = HAatom_object(file_id);
+    file_rec = HIfile_rec(file_id);
     if (BADFREC(file_rec))
         HGOTO_ERROR(DFE_ARGS, FAIL);
 
@@ -3081,7 +3081,7 @@ HDget_special_info(int32 access_id, sp_info_block_t *info_block)
 
     /* clear error stack and check validity of access id */
     HEclear();
-    access_rec = HAatom_object(access_id);
+    access_rec = HIaccess_rec(access_id);
     if (access_rec == (accrec_t *)NULL || info_block == NULL)
         HGOTO_ERROR(DFE_ARGS, FAIL);
 
@@ -3121,7 +3121,7 @@ HDset_special_info(int32 access_id, sp_info_block_t *info_block)
 
     /* clear error stack and check validity of access id */
     HEclear();
-    access_rec = HAatom_object(access_id);
+    access_rec = HIaccess_rec(access_id);
     if (access_rec == (accrec_t *)NULL || info_block == NULL)
         HGOTO_ERROR(DFE_ARGS, FAIL);
 
@@ -3433,7 +3433,7 @@ HDcheck_empty(int32 file_id, uint16 tag, uint16 ref, int *emptySDS /* TRUE if da
     HEclear();
 
     /* convert file id to file rec and check for validity */
-    file_rec = HAatom_object(file_id);
+    file_rec = HIfile_rec(file_id);
     if (BADFREC(file_rec))
         HGOTO_ERROR(DFE_ARGS, FAIL);
 
